@@ -62,3 +62,7 @@ TECHNIQUE["C09"] = "deterministic simulation of evolution call histories with pe
 LEVEL_TEXT["C10"] = "As C09 in imaginary time: evolve(-i tau) for states and purified density operators in every scheme that supports it (Taylor P&C, TDVP-PS/PS2, VMF/MU-VMF, CMF), complex and real Hamiltonians, non-zero energy offsets, judged per call against the normalised dense exp(-tau H) applied to the state before the call; thermal-propagation jobs (ThermalProp stepped by the simulator) against dense Gibbs averages; closed-form vibrational propagator and evolve_exact (with offsets) against dense matrix exponentials."
 LEVEL_NOTE["C10"] = _EVO_NOTE
 TECHNIQUE["C10"] = "deterministic simulation of imaginary-time / thermal job histories with per-call dense-propagator and Gibbs oracles"
+
+LEVEL_TEXT["C08"] = "optimize_mps on generated models and sectors with generated sweep schedules (1-/2-site, direct / Davidson forced through a cut-off knob, 1-4 roots, omega targeting, stacked operators), under Davidson early stops, LAPACK failures in the blocked SVD and arbitrary RNG positions: every reported value of every sweep obeys the Poincare bound against sector-restricted exact diagonalisation, returned states are normalised, in the sector and within the bond limits, and energies coincide with exact diagonalisation when the guess spans the sector, the limit reaches the sector ranks and the schedule converged."
+LEVEL_NOTE["C08"] = _CHAIN_NOTE + " Bound tolerance 1e-9*||H|| for direct diagonalisation, 1e-6*||H|| when Davidson ran (single-pass Gram-Schmidt). The knob never pushes Davidson below a symmetry-masked local dimension of 24 (it keeps 12+nroots vectors)."
+TECHNIQUE["C08"] = "deterministic simulation of optimisation histories with eigensolver/LAPACK fault injection against exact diagonalisation"
